@@ -98,12 +98,23 @@ structure Shared where
   deriving Repr
 
 structure Cfg where
+  /-- `remove_signal_handlers(remove_cleanup=False)` unregisters the atexit clean-up anyway (finding F7) -/
   unregOnSuccess : Bool
+  /-- `handle_error` writes the failure marker *before* it calls `cleanup()` (the order of the source) -/
+  markerFirst : Bool := true
   deriving Repr, DecidableEq
 
-/-- the source today (F7) and the proposed repair -/
+/-- the source at the pinned snapshot (F7 present), the source after fix 36f82fb, and the variant in which
+    `handle_error` cleans up first and writes the failure marker afterwards -/
 def current : Cfg := { unregOnSuccess := true }
 def repaired : Cfg := { unregOnSuccess := false }
+def cleanupFirst : Cfg := { unregOnSuccess := false, markerFirst := false }
+
+/-- order of the actions of `handle_error`: marker first = write, test, rmPid, relLock, exit;
+    clean-up first = test, rmPid, relLock, write, exit -/
+def hsFirst (cfg : Cfg) : HS := if cfg.markerFirst then .write else .test
+def hsAfterWrite (cfg : Cfg) : HS := if cfg.markerFirst then .test else .exit
+def hsAfterClean (cfg : Cfg) : HS := if cfg.markerFirst then .exit else .write
 
 def Proc.alive (p : Proc) : Bool := match p.dead with | none => true | some _ => false
 
@@ -118,11 +129,11 @@ def markEpoch (sh : Shared) (p : Proc) : Option Nat :=
   match p.wroteFailed with | none => some sh.epoch | some e => some e
 
 /-- where `SystemExit(1)` raised by a finished signal handler lands -/
-def afterHandler (p : Proc) : Loc :=
+def afterHandler (cfg : Cfg) (p : Proc) : Loc :=
   match p.loc with
   | .fin (some _) st => .fin none st      -- raised inside the atexit callback: reported and swallowed, callback aborted
   | .fin none st => .fin none st
-  | l => if l.inTry then .herr .write 1    -- `except SystemExit` with code 1: `handle_error(1)`
+  | l => if l.inTry then .herr (hsFirst cfg) 1    -- `except SystemExit` with code 1: `handle_error(1)`
          else finStart p (.code 1)         -- not protected: leaves `run()`
 
 /-- one step of the main flow (no handler active).  `cleanup` = test-and-set `cleaned`, `rmfile(pid)`,
@@ -144,9 +155,9 @@ def mainStep (cfg : Cfg) (me : Nat) (sh : Shared) (p : Proc) : Shared × Proc :=
       if k < p.blen then (sh, { p with loc := .body (k + 1) })
       else match p.outcome with
         | .ok => (sh, { p with loc := .bodyDone, completed := true })
-        | .exc => (sh, { p with loc := .herr .write 1 })
+        | .exc => (sh, { p with loc := .herr (hsFirst cfg) 1 })
         | .exit 0 => (sh, { p with loc := .raised0, completed := true })
-        | .exit (n + 1) => (sh, { p with loc := .herr .write (n + 1) })
+        | .exit (n + 1) => (sh, { p with loc := .herr (hsFirst cfg) (n + 1) })
   | .raised0 => (sh, { p with loc := .touch })
   | .bodyDone => (sh, { p with loc := .restTerm, termH := false })
   | .restTerm => (sh, { p with loc := .restInt, intH := false })
@@ -155,11 +166,13 @@ def mainStep (cfg : Cfg) (me : Nat) (sh : Shared) (p : Proc) : Shared × Proc :=
   | .touch => ({ sh with done := true }, { p with loc := .reraise, touched := true })
   | .reraise => (sh, { p with loc := finStart p (.code 0) })
   | .skipped => (sh, { p with loc := finStart p (.code 0) })
-  | .herr .write code => ({ sh with failed := some code }, { p with loc := .herr .test code, wroteFailed := markEpoch sh p })
+  | .herr .write code =>
+      ({ sh with failed := some code }, { p with loc := .herr (hsAfterWrite cfg) code, wroteFailed := markEpoch sh p })
   | .herr .test code =>
-      if p.cleaned then (sh, { p with loc := .herr .exit code }) else (sh, { p with loc := .herr .rmPid code, cleaned := true })
+      if p.cleaned then (sh, { p with loc := .herr (hsAfterClean cfg) code })
+      else (sh, { p with loc := .herr .rmPid code, cleaned := true })
   | .herr .rmPid code => ({ sh with pid := none }, { p with loc := .herr .relLock code })
-  | .herr .relLock code => (release sh (.run me), { p with loc := .herr .exit code })
+  | .herr .relLock code => (release sh (.run me), { p with loc := .herr (hsAfterClean cfg) code })
   | .herr .exit _ => (sh, { p with loc := finStart p (.code 1) })
   | .fin (some .test) st =>
       if p.cleaned then (sh, { p with loc := .fin none st }) else (sh, { p with loc := .fin (some .rmPid) st, cleaned := true })
@@ -168,37 +181,39 @@ def mainStep (cfg : Cfg) (me : Nat) (sh : Shared) (p : Proc) : Shared × Proc :=
   | .fin none st => (release sh (.run me), { p with dead := some st })
 
 /-- one step of a running signal handler (`handle_error(code, frame)`) -/
-def handlerStep (me : Nat) (sh : Shared) (p : Proc) (code : Nat) : HS → Shared × Proc
-  | .write => ({ sh with failed := some code }, { p with hnd := some (.test, code), wroteFailed := markEpoch sh p })
+def handlerStep (cfg : Cfg) (me : Nat) (sh : Shared) (p : Proc) (code : Nat) : HS → Shared × Proc
+  | .write =>
+      ({ sh with failed := some code }, { p with hnd := some (hsAfterWrite cfg, code), wroteFailed := markEpoch sh p })
   | .test =>
-      if p.cleaned then (sh, { p with hnd := some (.exit, code) }) else (sh, { p with hnd := some (.rmPid, code), cleaned := true })
+      if p.cleaned then (sh, { p with hnd := some (hsAfterClean cfg, code) })
+      else (sh, { p with hnd := some (.rmPid, code), cleaned := true })
   | .rmPid => ({ sh with pid := none }, { p with hnd := some (.relLock, code) })
-  | .relLock => (release sh (.run me), { p with hnd := some (.exit, code) })
-  | .exit => (sh, { p with hnd := none, loc := afterHandler p })
+  | .relLock => (release sh (.run me), { p with hnd := some (hsAfterClean cfg, code) })
+  | .exit => (sh, { p with hnd := none, loc := afterHandler cfg p })
 
 /-- one step of process `me` -/
 def stepProc (cfg : Cfg) (me : Nat) (sh : Shared) (p : Proc) : Shared × Proc :=
   match p.dead, p.hnd with
   | some _, _ => (sh, p)
-  | none, some (h, code) => handlerStep me sh p code h
+  | none, some (h, code) => handlerStep cfg me sh p code h
   | none, none => mainStep cfg me sh p
 
 def inBody (p : Proc) : Bool := match p.loc with | .body _ => true | _ => false
 def noHandler (p : Proc) : Bool := match p.hnd with | none => true | some _ => false
 
 /-- delivery of a signal -/
-def deliver (me : Nat) (sh : Shared) (p : Proc) (sig : Sig) : Shared × Proc :=
+def deliver (cfg : Cfg) (me : Nat) (sh : Shared) (p : Proc) (sig : Sig) : Shared × Proc :=
   match p.dead with
   | some _ => (sh, p)
   | none =>
   match sig with
   | .kill => (release sh (.run me), { p with dead := some (.signal .kill) })
   | .term =>
-      if p.termH then (sh, { p with hnd := some (.write, 15), signalled := true,
+      if p.termH then (sh, { p with hnd := some (hsFirst cfg, 15), signalled := true,
                                     sigInBody := p.sigInBody || (inBody p && noHandler p) })
       else (release sh (.run me), { p with dead := some (.signal .term), signalled := true })
   | .int =>
-      if p.intH then (sh, { p with hnd := some (.write, 2), signalled := true,
+      if p.intH then (sh, { p with hnd := some (hsFirst cfg, 2), signalled := true,
                                    sigInBody := p.sigInBody || (inBody p && noHandler p) })
       else -- default disposition: KeyboardInterrupt at the current point (also inside a running handler)
         match p.loc with
@@ -244,7 +259,7 @@ def act (cfg : Cfg) (s : St) : Act → St
       else s
   | .signal i sig =>
       if i < s.n then
-        match deliver i s.sh (s.procs i) sig with
+        match deliver cfg i s.sh (s.procs i) sig with
         | (sh', p') => { s with sh := sh', procs := upd s.procs i p' }
       else s
   | .lLock l =>
